@@ -171,10 +171,6 @@ func elemOf(t types.Type) types.Type {
 	return nil
 }
 
-func isModuleFn(fn *ssa.Function) bool {
-	pk := fnPkg(fn)
-	return pk != nil && (pk.Path() == ModPath || strings.HasPrefix(pk.Path(), ModPath+"/"))
-}
 
 // ---- per-function flow ------------------------------------------------------------------------------------
 
